@@ -50,7 +50,8 @@ example : resetBeforeUse [] [.acq, .set "fmap", .use "fmap", .rel] = true
 /-- Tie A: the cache is keyed by exactly (parser name, all_columns) -/
 theorem cache_keyed : (Gen.cacheKey == [["parser_name", "all_columns"]]) = true := by decide
 
-/-- Tie A: `_parse` and `_get_or_create_parser` are called from the four entry points only -/
+/-- Tie A: the helpers that handle the parse-scoped state (`_parse`, `_get_or_create_parser` and whatever they are cut
+into) are reached from the four entry points only: any other call site must itself run under the lock -/
 theorem helpers_private :
     Gen.helperCallers.all (fun c => (Ref.entryPoints.map ("__init__." ++ ·)).contains c.1) = true := by
   decide
